@@ -701,7 +701,7 @@ pub fn opts_c12_mixed() -> Opts {
     o.inline = true;
     o.shared_pct = 8;
     o.unwrap_pct = 60;
-    o.tags_on_wrappers = false;
+    o.tags_on_wrappers = true;
     o.unwrap_tags_shared = false;
     o.adjacent_pct = 40;
     o
@@ -778,6 +778,11 @@ pub fn oracle_c12_mixed(c: &AstCase, obs: &mut Obs, kf1: bool, kf7: bool) -> Ver
             let f_src = lead(src_line(lf));
             // what the first inner line looks like after removal: the kept bytes from its start up to the next kept line break
             let ls = r.lines[lf].0;
+            if !tr.keep[ls.min(sb.len() - 1)] {
+                // a removed child continues the opening part: which line is "the first inner line" is open
+                obs.excluded("ambiguous-first-inner-indent(removed-region-at-its-start)");
+                return Verdict::Pass;
+            }
             let mut first_r: Vec<u8> = vec![];
             for k in ls..sb.len() {
                 if tr.keep[k] {
